@@ -564,6 +564,7 @@ Record vctx (img img' : list Z) (d : dyninfo) (f f' : elf) (sp : Z) : Prop := {
   c_strings : strings_ok (spec_is_solaris (e_machine (f_eh f)) (e_osabi (f_eh f))) (strtab_bytes d img) (di_entries d) = true;
   c_eh : f_eh f = di_eh d;  c_64 : f_is64 f = di_is64 d;  c_le : f_le f = di_le d;
   c_ptab' : f_ptab f' = f_ptab f;
+  c_shdr_nth : forall n st, nthz (di_shdrs d) n = Some st -> section_header f n = Ok st;
   c_ptrs : forallb (fun tag => match first_val tag (di_entries d) with
                                | Some ptr => match ptr_ok (f_is64 f) img (di_phdrs d) ptr 1 with Some _ => true | None => false end
                                | None => true
@@ -589,9 +590,9 @@ Proof.
   destruct (first_val DT_STRTAB (di_entries d)) as [sp|] eqn:Hsp; [|discriminate].
   destruct (ptr_ok (di_is64 d) img (di_phdrs d) sp (sh_size (di_str d))) as [soff|] eqn:Hptr; [|discriminate].
   destruct (ptr_ok_inv _ _ _ _ _ _ Hptr) as [Hmap [Hnz [Hlen0 [Hoff1 Hoff2]]]].
-  assert (Hsoff : soff = sh_offset (di_str d)) by lia. subst soff.
-  assert (Heh0 : 0 < ehdr_size (di_is64 d)) by (destruct (di_is64 d); cbn; lia).
-  assert (Hph0 : 0 < phdr_size (di_is64 d)) by (destruct (di_is64 d); cbn; lia).
+  assert (Hsoff : soff = sh_offset (di_str d)) by (clear - K8; lia). subst soff.
+  assert (Heh0 : 0 < ehdr_size (di_is64 d)) by (clear; destruct (di_is64 d); cbn; lia).
+  assert (Hph0 : 0 < phdr_size (di_is64 d)) by (clear; destruct (di_is64 d); cbn; lia).
   destruct (stripped_of_inv _ _ Hst) as [le [is64 [h [h' [Hso1 [Hso' [E1 [E2 [E3 [E4 [E5 [E6 Hsame]]]]]]]]]]]].
   rewrite Hso in Hso1. inversion Hso1; subst le is64 h. clear Hso1.
   destruct (spec_open_elf_open _ _ _ _ Hso') as [f' [Ho' [Hi' [Hle' [His' Heh']]]]].
@@ -608,6 +609,8 @@ Proof.
   - apply (section_header_nth f srs); try (clear - D1 D2 D3 D4 D5 D6 K1 K2 K3 K7 Heh0 Hph0 E3 E4 E5 E6 Hoff1 Hoff2 Hlen0; lia); [rewrite Hi; exact Rs | rewrite <- Ess; exact Hstr].
   - pose proof (elf_open_ptab _ _ Ho) as P1. pose proof (elf_open_ptab _ _ Ho') as P2.
     rewrite Heh', E2 in P2. rewrite P1 in P2. inversion P2. reflexivity.
+  - intros n st Hn. apply (section_header_nth f srs); try (clear - D1 D2 D3 D4 D5 D6 K1 K2 K3 K7 Heh0 Hph0 E3 E4 E5 E6 Hoff1 Hoff2 Hlen0; lia);
+      [rewrite Hi; exact Rs | rewrite <- Ess; exact Hn].
 Qed.
 
 Section with_ctx.
@@ -625,13 +628,13 @@ Lemma ctx_split' : exists pre2 tail2, img' = pre2 ++ strtab_bytes d img ++ tail2
 Proof.
   destruct C. exists (firstn (Z.to_nat (sh_offset (di_str d))) img'),
                      (skipn (Z.to_nat (sh_size (di_str d))) (seekz img' (sh_offset (di_str d)))). split.
-  - unfold strtab_bytes. rewrite (same_behind_seekz _ _ _ (sh_offset (di_str d)) c_same0) by lia.
+  - unfold strtab_bytes. rewrite (same_behind_seekz _ _ _ (sh_offset (di_str d)) c_same0) by (clear - c_ehpos0 c_stroff0; lia).
     rewrite firstn_skipn, seekz_skipn, firstn_skipn. reflexivity.
-  - destruct c_same0 as [Hl _]. unfold zlen in *. rewrite firstn_length. lia.
+  - destruct c_same0 as [Hl _]. unfold zlen in *. rewrite firstn_length. clear - Hl c_ehpos0 c_stroff0 c_strlen0 c_strend0. lia.
 Qed.
 Lemma ctx_es_seg' : dyn_table (f_le f') (f_is64 f') (seekz (f_img f') (p_offset (di_seg d))) = Some (di_entries d).
 Proof.
-  destruct C. rewrite c_img'0, c_le'0, c_64'0, <- (same_behind_seekz _ _ _ _ c_same0) by lia. assumption.
+  destruct C. rewrite c_img'0, c_le'0, c_64'0, <- (same_behind_seekz _ _ _ _ c_same0) by (clear - c_ehpos0 c_segoff0; lia). assumption.
 Qed.
 End with_ctx.
 
